@@ -52,7 +52,11 @@ func c21Run(nReq int, strays int) {
 	reqs := make([]c21Req, 0, nReq)
 	for i := 0; i < nReq; i++ {
 		r := c21Req{id: verifrt.Uint64("req-id"), isRead: verifrt.Choice("read", 2) == 1}
-		r.src = []messaging.RemotePort{"CoreA.Port", "CoreB.Port"}[verifrt.Choice("requester", 2)]
+		if verifrt.Thorough() {
+			r.src = []messaging.RemotePort{"CoreA.Port", "CoreB.Port"}[verifrt.Choice("requester", 2)]
+		} else {
+			r.src = []messaging.RemotePort{"CoreA.Port", "CoreB.Port"}[i%2] // quick tier: requesters alternate
+		}
 		for _, o := range reqs {
 			verifrt.Assume(o.id != r.id) // message ids are unique in a simulation
 		}
